@@ -263,7 +263,7 @@ def _all_joints_inside(ctx, prog, comp, ib):
         idx_t = strip(a[2]) if isinstance(a, tuple) and a[0] == 'idx' else None
         src = util.loop_source(idx_t) if idx_t is not None else None
         r = util.range_of(src) if src is not None else None
-        dom = r is not None and util.const_val(r[0]) == 0 and util.const_val(r[1]) == 6 and not [x for x in r[2] if x != 'into_iter']
+        dom = r is not None and util.const_val(r[0]) == 0 and util.len_const(comp, r[1]) == 6 and not [x for x in r[2] if x != 'into_iter']
         trip = idx_t is not None and _triple_ok(a, ce, to, idx_t, lambda x: isinstance(x, tuple) and x[0] == 'idx' and util.is_param(x[1], 2))
         ct = strip(comp.call_term(t, (bi, None)))
         falses = trues = 0
